@@ -766,12 +766,14 @@ def _small_day_shift(y, m, d, k):
 
 
 def _bounded(k, lo, hi):
-    """is lo <= k <= hi known on this path? (one solver query for a symbolic k)"""
+    """is lo <= k <= hi implied by the declared ranges of the variables? (deterministic: the answer
+    selects a representation, so it must not depend on solver timing)"""
     if isinstance(k, int):
         return lo <= k <= hi
-    from .core import And
+    from .core import interval
 
-    return cur().prove(And(lo <= k, k <= hi))[0] == "unsat"
+    a, b = interval(z3.simplify(_z(k)), cur().bounds)
+    return lo <= a and b <= hi
 
 
 def _shift_days_fields(y, m, d, k):
@@ -792,7 +794,10 @@ def shift_days(dt, k):
     """dt + k days (k int or symbolic integer)"""
     y, m, d, H, M, S, us = dt_fields(dt)
     ny, nm, nd_ = _shift_days_fields(y, m, d, k)
-    return _raw_datetime(ny, nm, nd_, H, M, S, us, dt_tz(dt))
+    r = _raw_datetime(ny, nm, nd_, H, M, S, us, dt_tz(dt))
+    if isinstance(r, SDateTime) and not isinstance(k, int):
+        r._w = dt_wall_us(dt) + k * US_DAY  # the same value as ordinal(r)*DAY+..., stated directly
+    return r
 
 
 def shift_datetime(dt, delta_us):
@@ -809,6 +814,12 @@ def shift_datetime(dt, delta_us):
     tod = ((H * 60 + M) * 60 + S) * 1000000 + us + delta_us
     k = tod // US_DAY
     rem = tod % US_DAY
+    if not isinstance(delta_us, int):
+        # symbolic shift: stay on the wall-clock representation (fields derived on demand)
+        wall = dt_wall_us(dt) + delta_us
+        if not _rng(US_DAY, wall, (MAXORD + 1) * US_DAY - 1):
+            raise OverflowError("date value out of range")
+        return SDateTime.from_wall(wall, tz)
     ny, nm, nd_ = _shift_days_fields(y, m, d, k)
     nus = rem % 1000000
     secs = rem // 1000000
@@ -909,8 +920,10 @@ def clock_now(tz=None):
     us = SInt(z3.Int(k + "_us"))
     p._add(z_valid_date(y, m, d))
     p._add(z_valid_time(H, M, S, us))
-    for nm, v in (("y", y), ("m", m), ("d", d), ("H", H), ("M", M), ("S", S), ("us", us)):
+    for nm, v, rng in (("y", y, (1, 9999)), ("m", m, (1, 12)), ("d", d, (1, 31)), ("H", H, (0, 23)),
+                       ("M", M, (0, 59)), ("S", S, (0, 59)), ("us", us, (0, 999999))):
         p.inputs[k + "_" + nm] = v.e
+        p.bounds[k + "_" + nm] = rng
     return SDateTime(y, m, d, H, M, S, us, tz)
 
 
